@@ -330,6 +330,7 @@ type verifC20Pol struct {
 	Cltv                uint16
 	Min, Max            uint64
 	Base, Rate          uint64
+	Extra               []byte
 	fp                  string
 }
 
@@ -357,6 +358,7 @@ func verifC20PolFP(p *models.ChannelEdgePolicy) (*verifC20Pol, string) {
 		MsgFlags: uint8(p.MessageFlags), ChanFlags: uint8(p.ChannelFlags),
 		Cltv: p.TimeLockDelta, Min: uint64(p.MinHTLC), Max: uint64(p.MaxHTLC),
 		Base: uint64(p.FeeBaseMSat), Rate: uint64(p.FeeProportionalMillionths),
+		Extra: append([]byte(nil), p.ExtraOpaqueData...),
 	}
 	inb := "-"
 	p.InboundFee.WhenSome(func(f lnwire.Fee) {
@@ -918,4 +920,1307 @@ func (c *verifC20Ctx) close() {
 	c.cancel()
 	c.backend.Close()
 	os.RemoveAll(c.dir)
+}
+
+// ---------------------------------------------------------------------------
+// Scenario: base key set, chain, message catalogue.
+// ---------------------------------------------------------------------------
+
+type verifC20Scn struct {
+	c  *verifC20Ctx
+	r  *verifRng
+	vc *verifCtx
+
+	keys    [4]*btcec.PrivateKey // node1, node2, btc1, btc2 (pub(node1) < pub(node2))
+	other   *btcec.PrivateKey
+	slots   []*verifC20Slot
+	hidden  []*verifC20Slot
+	nHidden int // hidden blocks not yet revealed
+	main    *verifC20Slot
+
+	mainAnnounced bool
+	announced     []*verifC20Slot
+	shared        *mockPeer
+
+	snap *verifC20Snap
+	log  []map[string]any
+}
+
+var verifC20Extra = []byte{0x4d, 0x02, 0xaa, 0xbb}
+
+func verifC20Tx(r *verifRng, ctr *uint32, outs []*wire.TxOut) *wire.MsgTx {
+	tx := wire.NewMsgTx(2)
+	var prev chainhash.Hash
+	copy(prev[:], r.Bytes(32))
+	tx.AddTxIn(wire.NewTxIn(wire.NewOutPoint(&prev, 0), nil, nil))
+	for _, o := range outs {
+		tx.AddTxOut(o)
+	}
+	*ctr++
+	tx.LockTime = *ctr
+	return tx
+}
+
+// verifC20BuildChain generates the model chain of one scenario.
+func verifC20BuildChain(r *verifRng, keys, sk [4]*btcec.PrivateKey,
+	other *btcec.PrivateKey) (*verifC20Chain, []*verifC20Slot, []*verifC20Slot, *verifC20Slot, int) {
+
+	ch := &verifC20Chain{
+		byHash: map[chainhash.Hash]int{},
+		txAt:   map[chainhash.Hash][2]int{},
+		spent:  map[wire.OutPoint]bool{},
+	}
+	var ctr uint32
+	junk := func() []byte {
+		s, _ := txscript.NewScriptBuilder().AddOp(txscript.OP_0).AddData(r.Bytes(20)).Script()
+		return s
+	}
+	filler := func() {
+		ch.addBlock([]*wire.MsgTx{verifC20Tx(r, &ctr, []*wire.TxOut{{Value: 5000, PkScript: junk()}})})
+	}
+	b1, b2 := verifC20Pub(keys[2]), verifC20Pub(keys[3])
+	good := verifC20FundingScript(b1[:], b2[:])
+	ob := verifC20Pub(other)
+	mism := verifC20FundingScript(b1[:], ob[:])
+	s1, s2 := verifC20Pub(sk[2]), verifC20Pub(sk[3])
+	sent := verifC20FundingScript(s1[:], s2[:])
+
+	h0 := 10 + r.Intn(90)
+	for i := 0; i < h0; i++ {
+		filler()
+	}
+	var slots, hidden []*verifC20Slot
+	var sentSlot *verifC20Slot
+	const nVisible, nHidden, nTx, nOut = 6, 2, 3, 3
+	fundingBlock := func(hiddenBlk bool) {
+		h := uint32(len(ch.blocks))
+		var txs []*wire.MsgTx
+		var newSlots []*verifC20Slot
+		for ti := 0; ti < nTx; ti++ {
+			var outs []*wire.TxOut
+			for oi := 0; oi < nOut; oi++ {
+				val := int64(100000 + r.Intn(10000000))
+				sl := &verifC20Slot{H: h, Tx: uint32(ti), Out: uint16(oi)}
+				var script []byte
+				x := r.Intn(100)
+				switch {
+				case sentSlot == nil && !hiddenBlk:
+					sl.Kind = verifC20KindSentinel
+					script = sent
+					sentSlot = sl
+				case hiddenBlk || x < 62:
+					sl.Kind, script = verifC20KindGood, good
+				case x < 74:
+					sl.Kind, script = verifC20KindSpent, good
+				case x < 87:
+					sl.Kind, script = verifC20KindMismatch, mism
+				default:
+					sl.Kind, script = verifC20KindJunk, junk()
+				}
+				outs = append(outs, &wire.TxOut{Value: val, PkScript: script})
+				newSlots = append(newSlots, sl)
+			}
+			txs = append(txs, verifC20Tx(r, &ctr, outs))
+		}
+		ch.addBlock(txs)
+		for _, sl := range newSlots {
+			if sl.Kind == verifC20KindSpent {
+				tx := txs[sl.Tx]
+				ch.spent[wire.OutPoint{Hash: tx.TxHash(), Index: uint32(sl.Out)}] = true
+			}
+			if hiddenBlk {
+				hidden = append(hidden, sl)
+			} else if sl.Kind != verifC20KindSentinel {
+				slots = append(slots, sl)
+			}
+		}
+	}
+	for i := 0; i < nVisible; i++ {
+		fundingBlock(false)
+	}
+	for i := 0; i < 3; i++ {
+		filler()
+	}
+	ch.tip = int32(len(ch.blocks) - 1)
+	for i := 0; i < nHidden; i++ {
+		fundingBlock(true)
+	}
+	return ch, slots, hidden, sentSlot, nHidden
+}
+
+func (s *verifC20Scn) freshSlot(kind int) *verifC20Slot {
+	var cands, any []*verifC20Slot
+	for _, sl := range s.slots {
+		if sl.Kind != kind || sl == s.main {
+			continue
+		}
+		any = append(any, sl)
+		if !sl.Used {
+			cands = append(cands, sl)
+		}
+	}
+	if len(cands) == 0 {
+		cands = any
+	}
+	if len(cands) == 0 {
+		return s.main
+	}
+	sl := cands[s.r.Intn(len(cands))]
+	sl.Used = true
+	return sl
+}
+
+var verifC20SigNames = [4]string{"node1", "node2", "btc1", "btc2"}
+
+func verifC20CASig(a *lnwire.ChannelAnnouncement1, i int) *lnwire.Sig {
+	switch i {
+	case 0:
+		return &a.NodeSig1
+	case 1:
+		return &a.NodeSig2
+	case 2:
+		return &a.BitcoinSig1
+	}
+	return &a.BitcoinSig2
+}
+
+func verifC20CAKey(a *lnwire.ChannelAnnouncement1, i int) *[33]byte {
+	switch i {
+	case 0:
+		return &a.NodeID1
+	case 1:
+		return &a.NodeID2
+	case 2:
+		return &a.BitcoinKey1
+	}
+	return &a.BitcoinKey2
+}
+
+func verifC20SignCA(a *lnwire.ChannelAnnouncement1, keys [4]*btcec.PrivateKey) {
+	d, _ := verifC20Digest(a)
+	for i := 0; i < 4; i++ {
+		*verifC20CASig(a, i) = verifC20Sign(keys[i], d)
+	}
+}
+
+func verifC20BuildCA(scid lnwire.ShortChannelID, keys [4]*btcec.PrivateKey) *lnwire.ChannelAnnouncement1 {
+	a := &lnwire.ChannelAnnouncement1{
+		Features:       lnwire.NewRawFeatureVector(),
+		ChainHash:      *chaincfg.MainNetParams.GenesisHash,
+		ShortChannelID: scid,
+	}
+	for i := 0; i < 4; i++ {
+		*verifC20CAKey(a, i) = verifC20Pub(keys[i])
+	}
+	verifC20SignCA(a, keys)
+	return a
+}
+
+func (s *verifC20Scn) byteflip(m lnwire.Message, sigRegion bool) (lnwire.Message, int, bool) {
+	w := verifC20Wire(m)
+	if w == nil {
+		return nil, 0, false
+	}
+	lo, hi := 2+64*verifC20NSigs(m), len(w)
+	if sigRegion {
+		lo, hi = 2, lo
+	}
+	off := lo + s.r.Intn(hi-lo)
+	w2 := append([]byte(nil), w...)
+	if s.r.Bool() {
+		w2[off] ^= byte(1 << uint(s.r.Intn(8)))
+	} else {
+		w2[off] ^= byte(1 + s.r.Intn(255))
+	}
+	m2, err := lnwire.ReadMessage(bytes.NewReader(w2), 0)
+	if err != nil {
+		return nil, off, false
+	}
+	return m2, off - 2, true
+}
+
+func verifC20Clone(m lnwire.Message) lnwire.Message {
+	w := verifC20Wire(m)
+	if w == nil {
+		return nil
+	}
+	m2, err := lnwire.ReadMessage(bytes.NewReader(w), 0)
+	if err != nil {
+		return nil
+	}
+	return m2
+}
+
+func (s *verifC20Scn) genCA() (string, lnwire.Message) {
+	r := s.r
+	slot := s.freshSlot(verifC20KindGood)
+	if !s.mainAnnounced && r.Chance(1, 6) {
+		slot = s.main
+	}
+	keys := s.keys
+	a := verifC20BuildCA(slot.scid(), keys)
+	d, _ := verifC20Digest(a)
+
+	if r.Chance(3, 10) {
+		sigRegion := r.Chance(1, 4)
+		if m2, off, ok := s.byteflip(a, sigRegion); ok {
+			s.vc.Sig(fmt.Sprintf("bf|CA|%d", off))
+			return "ca.byteflip", m2
+		}
+		s.vc.Count("undecodable_byteflips", 1)
+	}
+
+	pick := r.Intn(30)
+	switch {
+	case pick < 4:
+		if slot == s.main {
+			s.mainAnnounced = true
+		}
+		s.announced = append(s.announced, slot)
+		return "ca.valid", a
+	case pick < 6:
+		i := r.Intn(4)
+		*verifC20CASig(a, i) = verifC20Sign(verifC20Key(r), d)
+		return "ca.sig." + verifC20SigNames[i] + ".wrongkey", a
+	case pick < 7:
+		i := r.Intn(4)
+		*verifC20CASig(a, i) = verifC20Sign(keys[i], r.Bytes(32))
+		return "ca.sig." + verifC20SigNames[i] + ".otherdigest", a
+	case pick < 10:
+		i := r.Intn(4)
+		j := (i + 1 + r.Intn(3)) % 4
+		*verifC20CASig(a, i) = *verifC20CASig(a, j)
+		return "ca.sig." + verifC20SigNames[i] + ".swap." + verifC20SigNames[j], a
+	case pick < 11:
+		i := r.Intn(4)
+		raw := append([]byte(nil), verifC20CASig(a, i).RawBytes()...)
+		raw[r.Intn(64)] ^= byte(1 << uint(r.Intn(8)))
+		*verifC20CASig(a, i) = verifC20RawSig(raw)
+		return "ca.sig." + verifC20SigNames[i] + ".bitflip", a
+	case pick < 12:
+		i := r.Intn(4)
+		*verifC20CASig(a, i) = verifC20RawSig(make([]byte, 64))
+		return "ca.sig." + verifC20SigNames[i] + ".zero", a
+	case pick < 13:
+		i := r.Intn(4)
+		*verifC20CAKey(a, i) = verifC20Pub(verifC20Key(r))
+		return "ca.key." + verifC20SigNames[i] + ".fresh.noresign", a
+	case pick < 15:
+		i := r.Intn(4)
+		k2 := keys
+		k2[i] = verifC20Key(r)
+		return "ca.key." + verifC20SigNames[i] + ".fresh.resign", verifC20BuildCA(slot.scid(), k2)
+	case pick < 16:
+		if r.Bool() {
+			a.NodeID1, a.NodeID2 = a.NodeID2, a.NodeID1
+			return "ca.key.nodeswap.noresign", a
+		}
+		a.BitcoinKey1, a.BitcoinKey2 = a.BitcoinKey2, a.BitcoinKey1
+		return "ca.key.btcswap.noresign", a
+	case pick < 17:
+		k2 := [4]*btcec.PrivateKey{keys[0], keys[1], keys[3], keys[2]}
+		s.announced = append(s.announced, slot)
+		return "ca.key.btcswap.resign", verifC20BuildCA(slot.scid(), k2)
+	case pick < 18:
+		k2 := [4]*btcec.PrivateKey{keys[1], keys[0], keys[2], keys[3]}
+		return "ca.nodeorder.resign", verifC20BuildCA(slot.scid(), k2)
+	case pick < 21:
+		scid := slot.scid()
+		delta := 1 + r.Intn(2)
+		if r.Chance(1, 4) {
+			delta = 1 + r.Intn(500)
+		}
+		if r.Bool() {
+			delta = -delta
+		}
+		var f string
+		switch r.Intn(3) {
+		case 0:
+			f = "block"
+			scid.BlockHeight = uint32(int(scid.BlockHeight)+delta) & 0xffffff
+		case 1:
+			f = "tx"
+			scid.TxIndex = uint32(int(scid.TxIndex)+delta) & 0xffffff
+		default:
+			f = "out"
+			scid.TxPosition = uint16(int(scid.TxPosition) + delta)
+		}
+		if r.Bool() {
+			a.ShortChannelID = scid
+			return "ca.scid." + f + ".noresign", a
+		}
+		return "ca.scid." + f + ".resign", verifC20BuildCA(scid, keys)
+	case pick < 25:
+		kind := []int{verifC20KindSpent, verifC20KindMismatch, verifC20KindJunk}[r.Intn(3)]
+		sl2 := s.freshSlot(kind)
+		return "ca.funding." + verifC20KindNames[sl2.Kind], verifC20BuildCA(sl2.scid(), keys)
+	case pick < 26:
+		a.ChainHash[r.Intn(32)] ^= 0x01
+		if r.Bool() {
+			return "ca.chainhash.noresign", a
+		}
+		verifC20SignCA(a, keys)
+		return "ca.chainhash.resign", a
+	case pick < 27:
+		bit := lnwire.FeatureBit(r.Intn(24))
+		if r.Chance(1, 3) {
+			bit = lnwire.SimpleTaprootChannelsOptionalStaging
+		}
+		a.Features.Set(bit)
+		if r.Bool() {
+			return "ca.features.noresign", a
+		}
+		verifC20SignCA(a, keys)
+		if bit == lnwire.SimpleTaprootChannelsOptionalStaging {
+			return "ca.features.taproot.resign", a
+		}
+		s.announced = append(s.announced, slot)
+		return "ca.features.resign", a
+	case pick < 28:
+		a.ExtraOpaqueData = append([]byte(nil), verifC20Extra...)
+		if r.Bool() {
+			return "ca.extra.noresign", a
+		}
+		verifC20SignCA(a, keys)
+		s.announced = append(s.announced, slot)
+		return "ca.extra.resign", a
+	default:
+		if len(s.hidden) > 0 {
+			sl2 := s.hidden[r.Intn(len(s.hidden))]
+			f := verifC20BuildCA(sl2.scid(), keys)
+			if r.Chance(1, 3) {
+				i := r.Intn(4)
+				*verifC20CASig(f, i) = verifC20Sign(verifC20Key(r), r.Bytes(32))
+				return "ca.future.badsig", f
+			}
+			return "ca.future.valid", f
+		}
+		return "ca.valid", a
+	}
+}
+
+func (s *verifC20Scn) capOf(scid lnwire.ShortChannelID) uint64 {
+	if ch := s.snap.chans[scid.ToUint64()]; ch != nil && ch.Cap > 0 {
+		return uint64(ch.Cap)
+	}
+	if out, _, ok := s.c.chain.lookup(scid); ok {
+		return uint64(out.Value)
+	}
+	return 1000000
+}
+
+func verifC20SignCU(u *lnwire.ChannelUpdate1, k *btcec.PrivateKey) {
+	d, _ := verifC20Digest(u)
+	u.Signature = verifC20Sign(k, d)
+}
+
+func (s *verifC20Scn) signerFor(pub [33]byte) *btcec.PrivateKey {
+	for i := 0; i < 2; i++ {
+		if verifC20Pub(s.keys[i]) == pub {
+			return s.keys[i]
+		}
+	}
+	return nil
+}
+
+func (s *verifC20Scn) genCU() (string, lnwire.Message) {
+	r := s.r
+	scid := s.main.scid()
+	x := r.Intn(10)
+	switch {
+	case x < 8:
+	case x < 9 && len(s.announced) > 0:
+		scid = s.announced[r.Intn(len(s.announced))].scid()
+	default:
+		scid = s.freshSlot(verifC20KindGood).scid()
+	}
+	dir := r.Intn(2)
+	ch := s.snap.chans[scid.ToUint64()]
+	var st *verifC20Pol
+	signer, otherSigner := s.keys[dir], s.keys[1-dir]
+	if ch != nil {
+		st = ch.Pol[dir]
+		own, oth := ch.N1, ch.N2
+		if dir == 1 {
+			own, oth = ch.N2, ch.N1
+		}
+		if k := s.signerFor(own); k != nil {
+			signer = k
+		}
+		if k := s.signerFor(oth); k != nil {
+			otherSigner = k
+		}
+	}
+	baseTs := uint32(1600000000 + r.Intn(1000))
+	if st != nil {
+		baseTs = st.Ts
+	}
+	capMsat := s.capOf(scid) * 1000
+	minH := uint64(1 + r.Intn(1000))
+	maxH := capMsat / uint64(1+r.Intn(4))
+	if maxH < minH {
+		maxH = minH
+	}
+	u := &lnwire.ChannelUpdate1{
+		ChainHash:       *chaincfg.MainNetParams.GenesisHash,
+		ShortChannelID:  scid,
+		Timestamp:       baseTs + 1 + uint32(r.Intn(5000)),
+		MessageFlags:    lnwire.ChanUpdateRequiredMaxHtlc,
+		ChannelFlags:    lnwire.ChanUpdateChanFlags(dir),
+		TimeLockDelta:   uint16(1 + r.Intn(2000)),
+		HtlcMinimumMsat: lnwire.MilliSatoshi(minH),
+		HtlcMaximumMsat: lnwire.MilliSatoshi(maxH),
+		BaseFee:         uint32(r.Intn(100000)),
+		FeeRate:         uint32(r.Intn(100000)),
+	}
+	verifC20SignCU(u, signer)
+
+	if r.Chance(3, 10) {
+		sigRegion := r.Chance(1, 4)
+		if m2, off, ok := s.byteflip(u, sigRegion); ok {
+			s.vc.Sig(fmt.Sprintf("bf|CU|%d", off))
+			return "cu.byteflip", m2
+		}
+		s.vc.Count("undecodable_byteflips", 1)
+	}
+
+	keepalive := func(dt uint32) bool {
+		if st == nil {
+			return false
+		}
+		u.Timestamp = st.Ts + dt
+		u.MessageFlags = lnwire.ChanUpdateMsgFlags(st.MsgFlags)
+		u.ChannelFlags = lnwire.ChanUpdateChanFlags(st.ChanFlags)
+		u.TimeLockDelta = st.Cltv
+		u.HtlcMinimumMsat = lnwire.MilliSatoshi(st.Min)
+		u.HtlcMaximumMsat = lnwire.MilliSatoshi(st.Max)
+		u.BaseFee = uint32(st.Base)
+		u.FeeRate = uint32(st.Rate)
+		u.ExtraOpaqueData = append([]byte(nil), st.Extra...)
+		return true
+	}
+
+	pick := r.Intn(32)
+	switch {
+	case pick < 5:
+		return "cu.valid.newer", u
+	case pick < 6:
+		if keepalive(1) {
+			verifC20SignCU(u, signer)
+			return "cu.keepalive.plus1", u
+		}
+		return "cu.valid.newer", u
+	case pick < 7:
+		if keepalive(2 * 86400) {
+			verifC20SignCU(u, signer)
+			return "cu.keepalive.plus2d", u
+		}
+		return "cu.valid.newer", u
+	case pick < 9:
+		u.Timestamp = baseTs
+		verifC20SignCU(u, signer)
+		return "cu.ts.equal", u
+	case pick < 11:
+		u.Timestamp = baseTs - 1 - uint32(r.Intn(3))
+		verifC20SignCU(u, signer)
+		return "cu.ts.older", u
+	case pick < 12:
+		u.Timestamp = baseTs + 1
+		verifC20SignCU(u, signer)
+		return "cu.ts.plus1", u
+	case pick < 13:
+		u.Timestamp = 0
+		verifC20SignCU(u, signer)
+		return "cu.ts.zero", u
+	case pick < 14:
+		u.Timestamp = 0xffffff00
+		verifC20SignCU(u, signer)
+		return "cu.ts.farfuture", u
+	case pick < 17:
+		verifC20SignCU(u, otherSigner)
+		return "cu.sig.otherdir", u
+	case pick < 18:
+		verifC20SignCU(u, verifC20Key(r))
+		return "cu.sig.randkey", u
+	case pick < 19:
+		u.Signature = verifC20Sign(signer, r.Bytes(32))
+		return "cu.sig.otherdigest", u
+	case pick < 20:
+		u.ChannelFlags ^= lnwire.ChanUpdateDirection
+		return "cu.dir.flip.noresign", u
+	case pick < 21:
+		u.HtlcMaximumMsat = u.HtlcMinimumMsat - 1
+		if u.HtlcMaximumMsat == 0 {
+			u.HtlcMinimumMsat, u.HtlcMaximumMsat = 5, 4
+		}
+		verifC20SignCU(u, signer)
+		return "cu.fields.maxltmin", u
+	case pick < 22:
+		u.HtlcMaximumMsat = 0
+		u.HtlcMinimumMsat = 0
+		verifC20SignCU(u, signer)
+		return "cu.fields.max0", u
+	case pick < 23:
+		u.HtlcMaximumMsat = lnwire.MilliSatoshi(capMsat + 1 + uint64(r.Intn(1000)))
+		verifC20SignCU(u, signer)
+		return "cu.fields.maxgtcap", u
+	case pick < 24:
+		u.MessageFlags = 0
+		verifC20SignCU(u, signer)
+		return "cu.fields.nomaxflag", u
+	case pick < 25:
+		u.ChainHash[r.Intn(32)] ^= 0x80
+		if r.Bool() {
+			return "cu.chainhash.noresign", u
+		}
+		verifC20SignCU(u, signer)
+		return "cu.chainhash.resign", u
+	case pick < 26:
+		u.ShortChannelID.TxPosition += uint16(1 + r.Intn(3))
+		if r.Bool() {
+			return "cu.scid.noresign", u
+		}
+		verifC20SignCU(u, signer)
+		return "cu.scid.resign", u
+	case pick < 27:
+		u.ExtraOpaqueData = append([]byte(nil), verifC20Extra...)
+		if r.Bool() {
+			return "cu.extra.noresign", u
+		}
+		verifC20SignCU(u, signer)
+		return "cu.extra.resign", u
+	case pick < 28:
+		u.ChannelFlags |= lnwire.ChanUpdateDisabled
+		verifC20SignCU(u, signer)
+		return "cu.flags.disabled", u
+	case pick < 29:
+		u.MessageFlags |= 0x40
+		verifC20SignCU(u, signer)
+		return "cu.msgflags.unknownbit.resign", u
+	case pick < 30:
+		// a correctly signed update of the *other* direction's owner for
+		// this direction, newer: wrong-direction signer with flipped bit.
+		u.ChannelFlags ^= lnwire.ChanUpdateDirection
+		verifC20SignCU(u, signer)
+		return "cu.dir.flip.resign", u
+	default:
+		raw := append([]byte(nil), u.Signature.RawBytes()...)
+		raw[r.Intn(64)] ^= byte(1 << uint(r.Intn(8)))
+		u.Signature = verifC20RawSig(raw)
+		return "cu.sig.bitflip", u
+	}
+}
+
+func verifC20SignNA(n *lnwire.NodeAnnouncement1, k *btcec.PrivateKey) {
+	d, _ := verifC20Digest(n)
+	n.Signature = verifC20Sign(k, d)
+}
+
+func (s *verifC20Scn) genNA() (string, lnwire.Message) {
+	r := s.r
+	var key, otherKey *btcec.PrivateKey
+	unknown := false
+	switch x := r.Intn(10); {
+	case x < 4:
+		key, otherKey = s.keys[0], s.keys[1]
+	case x < 8:
+		key, otherKey = s.keys[1], s.keys[0]
+	default:
+		key, otherKey = verifC20Key(r), s.keys[0]
+		unknown = true
+	}
+	pub := verifC20Pub(key)
+	baseTs := uint32(1600000000 + r.Intn(1000))
+	if st := s.snap.nodes[pub]; st != nil && st.HasAnn {
+		baseTs = uint32(st.Ts)
+	}
+	alias, _ := lnwire.NewNodeAlias("n" + hex.EncodeToString(r.Bytes(6)))
+	n := &lnwire.NodeAnnouncement1{
+		Features:  lnwire.NewRawFeatureVector(),
+		Timestamp: baseTs + 1 + uint32(r.Intn(5000)),
+		NodeID:    pub,
+		RGBColor:  color.RGBA{R: uint8(r.Intn(256)), G: uint8(r.Intn(256)), B: uint8(r.Intn(256))},
+		Alias:     alias,
+		Addresses: []net.Addr{&net.TCPAddr{IP: net.IP{10, 0, byte(r.Intn(256)), byte(1 + r.Intn(250))}, Port: 9735}},
+	}
+	verifC20SignNA(n, key)
+	if unknown {
+		if r.Chance(1, 2) {
+			return "na.unknownnode.valid", n
+		}
+	}
+
+	if r.Chance(3, 10) {
+		sigRegion := r.Chance(1, 4)
+		if m2, off, ok := s.byteflip(n, sigRegion); ok {
+			s.vc.Sig(fmt.Sprintf("bf|NA|%d", off))
+			return "na.byteflip", m2
+		}
+		s.vc.Count("undecodable_byteflips", 1)
+	}
+
+	pick := r.Intn(22)
+	switch {
+	case pick < 5:
+		return "na.valid.newer", n
+	case pick < 7:
+		n.Timestamp = baseTs
+		verifC20SignNA(n, key)
+		return "na.ts.equal", n
+	case pick < 9:
+		n.Timestamp = baseTs - 1 - uint32(r.Intn(3))
+		verifC20SignNA(n, key)
+		return "na.ts.older", n
+	case pick < 10:
+		n.Timestamp = baseTs + 1
+		verifC20SignNA(n, key)
+		return "na.ts.plus1", n
+	case pick < 11:
+		n.Timestamp = 0
+		verifC20SignNA(n, key)
+		return "na.ts.zero", n
+	case pick < 13:
+		verifC20SignNA(n, otherKey)
+		return "na.sig.otherkey", n
+	case pick < 14:
+		verifC20SignNA(n, verifC20Key(r))
+		return "na.sig.randkey", n
+	case pick < 15:
+		n.Signature = verifC20Sign(key, r.Bytes(32))
+		return "na.sig.otherdigest", n
+	case pick < 16:
+		raw := append([]byte(nil), n.Signature.RawBytes()...)
+		raw[r.Intn(64)] ^= byte(1 << uint(r.Intn(8)))
+		n.Signature = verifC20RawSig(raw)
+		return "na.sig.bitflip", n
+	case pick < 17:
+		n.NodeID = verifC20Pub(otherKey)
+		return "na.nodeid.swap.noresign", n
+	case pick < 18:
+		n.Features.Set(lnwire.FeatureBit(r.Intn(40)))
+		if r.Bool() {
+			return "na.features.noresign", n
+		}
+		verifC20SignNA(n, key)
+		return "na.features.resign", n
+	case pick < 19:
+		n.ExtraOpaqueData = append([]byte(nil), verifC20Extra...)
+		if r.Bool() {
+			return "na.extra.noresign", n
+		}
+		verifC20SignNA(n, key)
+		return "na.extra.resign", n
+	case pick < 20:
+		a2, _ := lnwire.NewNodeAlias("x" + hex.EncodeToString(r.Bytes(6)))
+		n.Alias = a2
+		return "na.alias.noresign", n
+	case pick < 21:
+		n.Addresses = []net.Addr{&net.TCPAddr{IP: net.IP{192, 168, 1, byte(r.Intn(250))}, Port: 1}}
+		return "na.addr.noresign", n
+	default:
+		n.RGBColor.R ^= 0xff
+		return "na.color.noresign", n
+	}
+}
+
+func (s *verifC20Scn) genReplay() (string, lnwire.Message) {
+	if len(s.c.recs) == 0 {
+		return s.genNA()
+	}
+	rec := s.c.recs[s.r.Intn(len(s.c.recs))]
+	m := verifC20Clone(rec.Msg)
+	if m == nil {
+		return s.genNA()
+	}
+	return "replay." + rec.Label, m
+}
+
+// ---------------------------------------------------------------------------
+// The monitor: submit one message / reveal blocks, judge.
+// ---------------------------------------------------------------------------
+
+type verifC20Allowed struct {
+	why   string
+	cands []*lnwire.ChannelUpdate1
+}
+
+func verifC20LabelClass(l string) string { return strings.TrimPrefix(l, "replay.") }
+
+func verifC20MsgKind(m lnwire.Message) string {
+	switch m.(type) {
+	case *lnwire.ChannelAnnouncement1:
+		return "CA"
+	case *lnwire.ChannelUpdate1:
+		return "CU"
+	case *lnwire.NodeAnnouncement1:
+		return "NA"
+	}
+	return "?"
+}
+
+func (c *verifC20Ctx) inPrematureCache(m lnwire.Message) bool {
+	u, ok := m.(*lnwire.ChannelUpdate1)
+	if !ok {
+		return false
+	}
+	cm, err := c.gossiper.prematureChannelUpdates.Get(u.ShortChannelID.ToUint64())
+	if err != nil || cm == nil {
+		return false
+	}
+	for _, pm := range cm.msgs {
+		if pm != nil && pm.msg != nil && pm.msg.msg == m {
+			return true
+		}
+	}
+	return false
+}
+
+func (s *verifC20Scn) witness(extra map[string]any) map[string]any {
+	w := map[string]any{"steps": s.log}
+	for k, v := range extra {
+		w[k] = v
+	}
+	return w
+}
+
+// allowCA computes the keys a (reference-valid, new) channel announcement may
+// change, including the application of cached updates for that channel.
+func (s *verifC20Scn) allowCA(a *lnwire.ChannelAnnouncement1, before *verifC20Snap,
+	allowed map[string]*verifC20Allowed, extraCUs []*lnwire.ChannelUpdate1) bool {
+
+	c := s.c
+	v := c.refCA(a)
+	scid := a.ShortChannelID.ToUint64()
+	_, exists := before.chans[scid]
+	if !v.Valid || exists {
+		return false
+	}
+	allowed[fmt.Sprintf("chan/%d", scid)] = &verifC20Allowed{why: "valid-new-channel"}
+	for _, id := range [][33]byte{a.NodeID1, a.NodeID2} {
+		k := "node/" + hex.EncodeToString(id[:])
+		if _, ok := before.kv[k]; !ok {
+			if _, ok2 := allowed[k]; !ok2 {
+				allowed[k] = &verifC20Allowed{why: "shell-node-of-new-channel"}
+			}
+		}
+	}
+	c.justified[hex.EncodeToString(verifC20Wire(a))] = true
+	out, _, _ := c.chain.lookup(a.ShortChannelID)
+	nch := &verifC20Chan{N1: a.NodeID1, N2: a.NodeID2, Cap: out.Value}
+	var cus []*lnwire.ChannelUpdate1
+	for _, p := range c.pending {
+		if u, ok := p.Msg.(*lnwire.ChannelUpdate1); ok && p.Scid == scid {
+			cus = append(cus, u)
+		}
+	}
+	cus = append(cus, extraCUs...)
+	for _, u := range cus {
+		if u.ShortChannelID.ToUint64() != scid {
+			continue
+		}
+		if vv := verifC20RefCU(u, nch); vv.Valid {
+			k := fmt.Sprintf("pol/%d/%d", scid, u.ChannelFlags&lnwire.ChanUpdateDirection)
+			al := allowed[k]
+			if al == nil {
+				al = &verifC20Allowed{why: "cached-update-of-new-channel"}
+				allowed[k] = al
+			}
+			al.cands = append(al.cands, u)
+			c.justified[hex.EncodeToString(verifC20Wire(u))] = true
+		}
+	}
+	return true
+}
+
+func verifC20PolMatches(p *verifC20Pol, u *lnwire.ChannelUpdate1) bool {
+	return p != nil && p.Ts == u.Timestamp && p.ChanFlags == uint8(u.ChannelFlags) &&
+		p.MsgFlags == uint8(u.MessageFlags) && p.Cltv == u.TimeLockDelta &&
+		p.Min == uint64(u.HtlcMinimumMsat) && p.Max == uint64(u.HtlcMaximumMsat) &&
+		p.Base == uint64(u.BaseFee) && p.Rate == uint64(u.FeeRate)
+}
+
+// judge evaluates the graph oracle for one step.
+func (s *verifC20Scn) judge(label, kind string, before, after *verifC20Snap,
+	allowed map[string]*verifC20Allowed, ca *lnwire.ChannelAnnouncement1,
+	na *lnwire.NodeAnnouncement1, entry map[string]any) []string {
+
+	vc := s.vc
+	changed := verifC20Diff(before, after)
+	entry["changed"] = changed
+	vc.Count("oracle_graph_evals", 1)
+	lc := verifC20LabelClass(label)
+	for _, k := range changed {
+		al := allowed[k]
+		kk := strings.SplitN(k, "/", 2)[0]
+		if al == nil {
+			_, was := before.kv[k]
+			_, is := after.kv[k]
+			how := "modified"
+			if !was {
+				how = "added"
+			} else if !is {
+				how = "removed"
+			}
+			vc.Violation("graph_unchanged_unless_valid",
+				fmt.Sprintf("%s:%s:%s-%s", kind, lc, kk, how),
+				fmt.Sprintf("step %q (%s): graph key %s %s although the reference predicate does not allow it (reason=%v)\nbefore=%q\nafter=%q",
+					label, kind, k, how, entry["ref"], before.kv[k], after.kv[k]),
+				s.witness(map[string]any{"key": k, "before": before.kv[k], "after": after.kv[k]}))
+			continue
+		}
+		// The stored content must be the authenticated content.
+		vc.Count("oracle_applied_matches_evals", 1)
+		ok := true
+		switch kk {
+		case "chan":
+			if ca != nil {
+				ch := after.chans[ca.ShortChannelID.ToUint64()]
+				ok = ch != nil && ch.N1 == ca.NodeID1 && ch.N2 == ca.NodeID2 &&
+					ch.HasBtc && ch.B1 == ca.BitcoinKey1 && ch.B2 == ca.BitcoinKey2
+			}
+			vc.Count("applied_ca", 1)
+		case "pol":
+			var scid uint64
+			var d int
+			fmt.Sscanf(k, "pol/%d/%d", &scid, &d)
+			var p *verifC20Pol
+			if ch := after.chans[scid]; ch != nil {
+				p = ch.Pol[d]
+			}
+			ok = false
+			for _, u := range al.cands {
+				if verifC20PolMatches(p, u) {
+					ok = true
+				}
+			}
+			vc.Count("applied_cu", 1)
+		case "node":
+			if na != nil && al.why == "valid-newer-node-ann" {
+				nr := after.nodes[na.NodeID]
+				ok = nr != nil && nr.HasAnn && nr.Ts == int64(na.Timestamp)
+				vc.Count("applied_na", 1)
+			}
+		}
+		if !ok {
+			vc.Violation("applied_matches_message",
+				fmt.Sprintf("%s:%s:%s", kind, lc, kk),
+				fmt.Sprintf("step %q: graph key %s was changed (allowed: %s) but the stored value does not match the authenticated message: %q",
+					label, k, al.why, after.kv[k]),
+				s.witness(map[string]any{"key": k, "after": after.kv[k]}))
+		}
+	}
+	for k, al := range allowed {
+		found := false
+		for _, ck := range changed {
+			if ck == k {
+				found = true
+			}
+		}
+		if !found && al.why != "shell-node-of-new-channel" {
+			vc.Count("valid_not_applied", 1)
+			extra := ""
+			if ca != nil && strings.HasPrefix(k, "chan/") {
+				z, _ := s.c.builder.IsZombieEdge(ca.ShortChannelID)
+				cl, _ := s.c.gossiper.cfg.ScidCloser.IsClosedScid(s.c.ctx, ca.ShortChannelID)
+				extra = fmt.Sprintf(" zombie=%v closed=%v", z, cl)
+				if !z && !cl && entry["err"] == "" {
+					vc.Count("valid_ca_silently_dropped", 1)
+				}
+			}
+			vc.Diag("valid_not_applied:"+lc, fmt.Sprintf("%s allowed (%s) but unchanged; lnd err=%v%s", k, al.why, entry["err"], extra))
+		}
+	}
+	return changed
+}
+
+func (s *verifC20Scn) checkBroadcasts(label string) {
+	c := s.c
+	c.bmu.Lock()
+	news := append([]verifC20Bcast(nil), c.blog[c.bchecked:]...)
+	c.bchecked = len(c.blog)
+	c.bmu.Unlock()
+	for _, b := range news {
+		if c.sentKeys[b.Key] {
+			continue
+		}
+		s.vc.Count("oracle_bcast_evals", 1)
+		if c.justified[b.Key] {
+			s.vc.Count("bcast_justified", 1)
+			continue
+		}
+		src := "never-submitted"
+		for _, rec := range c.recs {
+			if rec.Hex == b.Key {
+				src = verifC20LabelClass(rec.Label)
+			}
+		}
+		s.vc.Violation("not_relayed_unless_valid",
+			fmt.Sprintf("%s:%s", b.Type, src),
+			fmt.Sprintf("after step %q: %s broadcast to peers, but the reference predicate never judged it valid+fresh (origin %s): %s",
+				label, b.Type, src, b.Key),
+			s.witness(map[string]any{"broadcast": b.Key, "origin": src}))
+	}
+}
+
+// awaitCachedFor waits for pending (premature) updates of channels that now
+// exist; lnd re-injects them after adding the channel.
+func (s *verifC20Scn) awaitCachedFor(after *verifC20Snap) bool {
+	c := s.c
+	any := false
+	var keep []*verifC20Rec
+	for _, p := range c.pending {
+		if _, ok := after.chans[p.Scid]; ok {
+			rec := p
+			c.poll("re-processing of a cached channel_update", rec.tryResolve)
+			any = true
+			continue
+		}
+		keep = append(keep, p)
+	}
+	c.pending = keep
+	return any
+}
+
+func (s *verifC20Scn) submit(idx int, label string, m lnwire.Message) {
+	c, vc, r := s.c, s.vc, s.r
+	before := s.snap
+	kind := verifC20MsgKind(m)
+	whex := hex.EncodeToString(verifC20Wire(m))
+	entry := map[string]any{"i": idx, "label": label, "type": kind, "wire": whex}
+	s.log = append(s.log, entry)
+	vc.Count("msgs", 1)
+	vc.Count("msgs_"+kind, 1)
+
+	allowed := map[string]*verifC20Allowed{}
+	var ca *lnwire.ChannelAnnouncement1
+	var na *lnwire.NodeAnnouncement1
+	var ref verifC20Verdict
+	scid := uint64(0)
+	switch mm := m.(type) {
+	case *lnwire.ChannelAnnouncement1:
+		ca = mm
+		scid = mm.ShortChannelID.ToUint64()
+		ref = c.refCA(mm)
+		if _, exists := before.chans[scid]; ref.Valid && exists {
+			ref = verifC20Verdict{Reason: "valid-but-known"}
+		}
+		s.allowCA(mm, before, allowed, nil)
+	case *lnwire.ChannelUpdate1:
+		scid = mm.ShortChannelID.ToUint64()
+		ref = verifC20RefCU(mm, before.chans[scid])
+		if ref.Valid {
+			k := fmt.Sprintf("pol/%d/%d", scid, mm.ChannelFlags&lnwire.ChanUpdateDirection)
+			allowed[k] = &verifC20Allowed{why: "valid-newer-update", cands: []*lnwire.ChannelUpdate1{mm}}
+			c.justified[whex] = true
+		}
+	case *lnwire.NodeAnnouncement1:
+		na = mm
+		ref = verifC20RefNA(mm, before)
+		if ref.Valid {
+			allowed["node/"+hex.EncodeToString(mm.NodeID[:])] = &verifC20Allowed{why: "valid-newer-node-ann"}
+			c.justified[whex] = true
+		}
+	}
+	entry["ref"] = map[string]any{"valid": ref.Valid, "reason": ref.Reason, "scope": ref.Scope}
+	if ref.Valid {
+		vc.Count("ref_valid", 1)
+	} else {
+		vc.Count("ref_invalid", 1)
+	}
+
+	peer := &mockPeer{pk: verifC20Key(r).PubKey()}
+	if r.Chance(1, 8) {
+		peer = s.shared
+		entry["peer"] = "shared"
+	}
+	rec := &verifC20Rec{Idx: idx, Label: label, Msg: m, Hex: whex, Scid: scid}
+	rec.fut = c.gossiper.ProcessRemoteAnnouncement(c.ctx, m, peer)
+	c.recs = append(c.recs, rec)
+	flushKey := c.quiesce()
+	if !rec.tryResolve() {
+		c.poll("message result or premature cache entry", func() bool {
+			return rec.tryResolve() || c.inPrematureCache(m)
+		})
+		if !rec.Resolved {
+			rec.Pending = "premature"
+			c.pending = append(c.pending, rec)
+			vc.Count("premature_cached", 1)
+		}
+	}
+	entry["err"] = rec.Err
+	entry["pending"] = rec.Pending
+	if rec.Err != "" {
+		vc.Count("lnd_err", 1)
+	}
+	after := c.snapshot()
+	if ca != nil {
+		if s.awaitCachedFor(after) {
+			flushKey = c.quiesce()
+			after = c.snapshot()
+			vc.Count("premature_reprocessed", 1)
+		}
+	}
+	changed := s.judge(label, kind, before, after, allowed, ca, na, entry)
+	c.waitBroadcast(flushKey)
+	s.checkBroadcasts(label)
+	s.snap = after
+
+	lc := verifC20LabelClass(label)
+	if strings.HasSuffix(lc, "byteflip") || ref.Valid || len(changed) > 0 || rec.Err != "" || rec.Pending != "" {
+		pre := ""
+		if strings.HasPrefix(label, "replay.") {
+			pre = "r."
+		}
+		vc.Sig(fmt.Sprintf("%s%s|v%v|c%v|e%v|p%s", pre, lc, ref.Valid, len(changed) > 0, rec.Err != "", rec.Pending))
+	}
+}
+
+// mine reveals hidden blocks; messages cached for a future height are
+// re-injected by lnd and judged here.
+func (s *verifC20Scn) mine(idx int) {
+	c, vc := s.c, s.vc
+	before := s.snap
+	entry := map[string]any{"i": idx, "label": "mine", "type": "blocks"}
+	s.log = append(s.log, entry)
+	vc.Count("mine_steps", 1)
+
+	c.chain.mu.Lock()
+	c.chain.tip++
+	tip := c.chain.tip
+	hash := c.chain.hashes[tip]
+	c.chain.mu.Unlock()
+	s.nHidden--
+	entry["tip"] = tip
+
+	type cached struct {
+		msg lnwire.Message
+		fut actor.Future[error]
+	}
+	var cs []cached
+	c.gossiper.futureMsgs.Range(func(_ uint64, cm *cachedFutureMsg) bool {
+		if cm.height <= uint32(tip) {
+			cs = append(cs, cached{cm.msg.msg, cm.msg.errPromise.Future()})
+		}
+		return true
+	})
+	allowed := map[string]*verifC20Allowed{}
+	var cus []*lnwire.ChannelUpdate1
+	for _, x := range cs {
+		if u, ok := x.msg.(*lnwire.ChannelUpdate1); ok {
+			cus = append(cus, u)
+		}
+	}
+	var labels []string
+	for _, x := range cs {
+		if a, ok := x.msg.(*lnwire.ChannelAnnouncement1); ok {
+			s.allowCA(a, before, allowed, cus)
+		}
+		for _, rec := range c.recs {
+			if rec.Msg == x.msg {
+				labels = append(labels, rec.Label)
+			}
+		}
+	}
+	entry["cached"] = labels
+	vc.Count("future_reinjected", int64(len(cs)))
+
+	c.notifier.notifyBlock(hash, uint32(tip))
+	c.poll("gossiper height", func() bool { return c.gossiper.latestHeight() == uint32(tip) })
+	for _, x := range cs {
+		x := x
+		c.poll("re-processing of a future-height message", func() bool {
+			_, ctxErr := x.fut.Await(verifC20DoneCtx).Unpack()
+			return ctxErr == nil || c.inPrematureCache(x.msg)
+		})
+	}
+	flushKey := c.quiesce()
+	after := c.snapshot()
+	// Cached future updates that became premature (unknown channel) are now
+	// pending like any other premature update.
+	for _, x := range cs {
+		if u, ok := x.msg.(*lnwire.ChannelUpdate1); ok && c.inPrematureCache(x.msg) {
+			if _, known := after.chans[u.ShortChannelID.ToUint64()]; known {
+				continue
+			}
+			r2 := &verifC20Rec{Label: "future-cu", Msg: x.msg, fut: x.fut,
+				Scid: u.ShortChannelID.ToUint64(), Pending: "premature",
+				Hex: hex.EncodeToString(verifC20Wire(x.msg))}
+			c.pending = append(c.pending, r2)
+		}
+	}
+	if s.awaitCachedFor(after) {
+		flushKey = c.quiesce()
+		after = c.snapshot()
+	}
+	// A second pass for updates re-injected behind their channel.
+	for _, x := range cs {
+		x := x
+		if _, ok := x.msg.(*lnwire.ChannelUpdate1); ok {
+			c.poll("re-processing of a future-height update", func() bool {
+				_, ctxErr := x.fut.Await(verifC20DoneCtx).Unpack()
+				return ctxErr == nil || c.inPrematureCache(x.msg)
+			})
+		}
+	}
+	s.judge("mine", "blocks", before, after, allowed, nil, nil, entry)
+	c.waitBroadcast(flushKey)
+	s.checkBroadcasts("mine")
+	s.snap = after
+	vc.Sig(fmt.Sprintf("mine|n%d|c%v", len(cs), len(entry["changed"].([]string)) > 0))
+}
+
+func verifC20RunScenario(t *testing.T, vc *verifCtx, r *verifRng, steps int) {
+	var keys, sk [4]*btcec.PrivateKey
+	for i := range keys {
+		keys[i] = verifC20Key(r)
+		sk[i] = verifC20Key(r)
+	}
+	p0, p1 := verifC20Pub(keys[0]), verifC20Pub(keys[1])
+	if bytes.Compare(p0[:], p1[:]) > 0 {
+		keys[0], keys[1] = keys[1], keys[0]
+	}
+	other := verifC20Key(r)
+	chain, slots, hidden, sentSlot, nHidden := verifC20BuildChain(r, keys, sk, other)
+	c := verifC20NewCtx(t, vc, r, chain, sentSlot, sk)
+	defer c.close()
+
+	s := &verifC20Scn{c: c, r: r, vc: vc, keys: keys, other: other, slots: slots,
+		hidden: hidden, nHidden: nHidden,
+		shared: &mockPeer{pk: verifC20Key(r).PubKey()}}
+	for _, sl := range slots {
+		if sl.Kind == verifC20KindGood {
+			s.main = sl
+			sl.Used = true
+			break
+		}
+	}
+	if s.main == nil {
+		vc.Count("scenario_without_good_slot", 1)
+		return
+	}
+	s.snap = c.snapshot()
+	// prime the flush path once (also proves the sentinel works).
+	c.waitBroadcast(c.quiesce())
+	s.checkBroadcasts("setup")
+	s.snap = c.snapshot()
+
+	forceAt := r.Intn(steps / 2)
+	if r.Chance(1, 4) {
+		forceAt = 0
+	}
+	for i := 0; i < steps; i++ {
+		if vc.Violations() > 20 {
+			return
+		}
+		if i == forceAt && !s.mainAnnounced {
+			s.mainAnnounced = true
+			s.announced = append(s.announced, s.main)
+			s.submit(i, "ca.valid", verifC20BuildCA(s.main.scid(), s.keys))
+			continue
+		}
+		x := r.Intn(100)
+		switch {
+		case x < 4 && s.nHidden > 0:
+			s.mine(i)
+		case x < 30:
+			l, m := s.genCA()
+			s.submit(i, l, m)
+		case x < 62:
+			l, m := s.genCU()
+			s.submit(i, l, m)
+		case x < 88:
+			l, m := s.genNA()
+			s.submit(i, l, m)
+		default:
+			l, m := s.genReplay()
+			s.submit(i, l, m)
+		}
+	}
+	// Final flush: one more trickle so that late broadcasts are judged too.
+	c.waitBroadcast(c.quiesce())
+	c.waitBroadcast(c.quiesce())
+	s.checkBroadcasts("end")
+	vc.Count("scenarios", 1)
+	if vc.Violations() == 0 && len(s.log) > 0 {
+		n := len(s.log)
+		if n > 6 {
+			n = 6
+		}
+		vc.Sample(map[string]any{"first_steps": s.log[:n]})
+	}
+}
+
+// verifC20ProbeV2 records whether the pinned tree accepts gossip v2 messages
+// on the remote path.
+func verifC20ProbeV2(t *testing.T, vc *verifCtx) {
+	r := vc.Rng(1 << 30)
+	var keys, sk [4]*btcec.PrivateKey
+	for i := range keys {
+		keys[i] = verifC20Key(r)
+		sk[i] = verifC20Key(r)
+	}
+	chain, _, _, sentSlot, _ := verifC20BuildChain(r, keys, sk, verifC20Key(r))
+	c := verifC20NewCtx(t, vc, r, chain, sentSlot, sk)
+	defer c.close()
+	before := c.snapshot()
+	res := []string{}
+	accepted := false
+	for _, m := range []lnwire.Message{&lnwire.ChannelAnnouncement2{},
+		&lnwire.ChannelUpdate2{}, &lnwire.NodeAnnouncement2{}} {
+
+		m := m
+		var err error
+		panicked := vc.Guard("v2_probe_no_panic", "v2-probe-panic", nil, func() {
+			f := c.gossiper.ProcessRemoteAnnouncement(c.ctx, m,
+				&mockPeer{pk: verifC20Key(r).PubKey()})
+			tctx, cancel := context.WithTimeout(c.ctx, verifC20Wait)
+			defer cancel()
+			err = AwaitGossipResult(tctx, f)
+		})
+		if panicked {
+			return
+		}
+		if err == nil {
+			accepted = true
+		}
+		res = append(res, fmt.Sprintf("%T:%v", m, err))
+	}
+	// NOTE: no quiesce() here. On the pinned tree InitJobDependencies takes a
+	// validation-barrier slot and then fails for message types it does not
+	// know without returning the slot, so the barrier never becomes idle
+	// again after a v2 message (recorded as a diagnostic; the peer layer does
+	// not route v2 gossip to the gossiper, so this is not remotely reachable).
+	sem := c.gossiper.vb.validationSemaphore
+	if leaked := cap(sem) - len(sem); leaked > 0 {
+		vc.Diag("v2_probe_barrier_slots_leaked", fmt.Sprintf("%d validation barrier slots not returned after %d rejected v2 messages", leaked, len(res)))
+	}
+	after := c.snapshot()
+	if d := verifC20Diff(before, after); len(d) > 0 {
+		vc.Diag("v2_probe_changed_graph", fmt.Sprint(d))
+	}
+	if accepted {
+		vc.Note("gossip_versions", "v1 exercised; v2 probe NOT rejected on the remote path: "+strings.Join(res, "; "))
+	} else {
+		vc.Note("gossip_versions", "v1 only: the pinned tree rejects v2 messages on the remote path ("+strings.Join(res, "; ")+")")
+	}
+}
+
+func TestVerifC20(t *testing.T) {
+	vc := verifStart(t, "C20", "gossip")
+	defer vc.Finish()
+
+	const steps = 40
+	total := vc.N(512, 24000)
+	if vc.Only < 0 && vc.Shard == 0 {
+		verifC20ProbeV2(t, vc)
+	}
+	for i := 0; i < total; i++ {
+		if !vc.Mine(i) {
+			continue
+		}
+		r := vc.Rng(i)
+		vc.Case(i, map[string]any{"scenario": i, "steps": steps})
+		verifC20RunScenario(t, vc, r, steps)
+		vc.CaseDone(i)
+	}
 }
